@@ -49,6 +49,7 @@ struct ImportDataSource {
     login_folder: (FolderRow, Vec<SecretRow>, Vec<EventRecordRow>),
     device_folder: Option<(FolderRow, Vec<SecretRow>, Vec<EventRecordRow>)>,
     user_folders: Vec<(FolderRow, Vec<SecretRow>, Vec<EventRecordRow>)>,
+    device_events: Vec<EventRecordRow>,
     file_events: Vec<EventRecordRow>,
     servers: Vec<ServerRow>,
     account_preferences: Vec<PreferenceRow>,
@@ -236,6 +237,13 @@ impl BackupImport {
             user_folders.push((user_folder, folder_secrets, folder_events));
         }
 
+        // Device events
+        let device_events = event_entity.load_events(
+            EventLogType::Device,
+            account_id,
+            None,
+        )?;
+
         // File events
         let file_events = event_entity.load_events(
             EventLogType::Files,
@@ -257,6 +265,7 @@ impl BackupImport {
             login_folder: (login_folder, login_secrets, login_events),
             device_folder,
             user_folders,
+            device_events,
             file_events,
             servers,
             account_preferences,
@@ -305,7 +314,7 @@ impl BackupImport {
             folder_entity
                 .insert_folder_secrets(device_folder_id, device_secrets)?;
             event_entity
-                .insert_device_events(device_folder_id, device_events)?;
+                .insert_folder_events(device_folder_id, device_events)?;
             account_entity
                 .insert_device_folder(account_id, device_folder_id)?;
         }
@@ -317,6 +326,10 @@ impl BackupImport {
             folder_entity.insert_folder_secrets(folder_id, secrets)?;
             event_entity.insert_folder_events(folder_id, events)?;
         }
+
+        // Create device events
+        event_entity
+            .insert_device_events(account_id, &data.device_events)?;
 
         // Create file events
         event_entity.insert_file_events(account_id, &data.file_events)?;
